@@ -1082,7 +1082,9 @@ def run(ctx):
         run_big(ctx)
     run_handshake(ctx, real)
     run_client(ctx, real)
-    run_logsend(ctx)
+    if (os.path.exists(os.path.join(core.VERIF, 'tools/harness/drive_logsend.py'))
+            and os.path.exists(os.path.join(core.COQ, 'Model/LogSend.v'))):
+        run_logsend(ctx)
     if not r['ok']:
         ctx.broken('theorem/file %s' % r['failing'], r['log'],
                    {'source': 'proof', 'theorem': r['failing']})
